@@ -241,7 +241,7 @@ fn render(src: &Src, edits: &[Edit], s: usize, e: usize, out: &mut Out, depth: u
 thread_local! { static FMT_EMITTED: std::cell::RefCell<std::collections::HashSet<String>> = std::cell::RefCell::new(std::collections::HashSet::new()); }
 thread_local! { static INCLUDED: std::cell::RefCell<std::collections::HashSet<std::path::PathBuf>> = std::cell::RefCell::new(std::collections::HashSet::new()); }
 
-#[derive(Default, Debug)]
+#[derive(Default, Debug, Clone)]
 struct FnDir {
     anchor: String,
     vrs_line: usize,
@@ -260,6 +260,10 @@ struct FnDir {
     fmt_interp: bool,
     /// R10: the Self type the macro-defined fn is instantiated for (a type of the unit)
     for_type: Option<String>,
+    /// names of the local binders (let / for / closure / match patterns, in source order) of the
+    /// function body at the time the contract was written: a pure renaming of locals in the changed
+    /// code is followed by renaming them in the spliced contract text
+    binders: Option<Vec<String>>,
 }
 
 #[derive(Default, Debug, Clone)]
@@ -269,7 +273,7 @@ struct Clause {
     vrs_line: usize,
 }
 
-#[derive(Default, Debug)]
+#[derive(Default, Debug, Clone)]
 struct LoopDir {
     invariant: Vec<Clause>,
     invariant_except_break: Vec<Clause>,
@@ -277,7 +281,7 @@ struct LoopDir {
     decreases: Vec<Clause>,
 }
 
-#[derive(Default, Debug)]
+#[derive(Default, Debug, Clone)]
 struct AtDir {
     /// `check`: carries an obligation / a ghost declaration contracts depend on -- never dropped;
     /// `at`: proof hint -- all hints of a function are dropped when one cannot be re-attached
@@ -422,6 +426,9 @@ fn parse_unit(path: &str) -> (Vec<Piece>, Vec<(String, String)>) {
                             section.clear();
                         } else if let Some(a) = section.strip_prefix("safety ") {
                             fd.safety = Some(a.trim().trim_start_matches('[').trim_end_matches(']').to_string());
+                            section.clear();
+                        } else if let Some(a) = section.strip_prefix("binders") {
+                            fd.binders = Some(a.split_whitespace().map(|x| x.to_string()).collect());
                             section.clear();
                         } else if let Some(a) = section.strip_prefix("for-type ") {
                             fd.for_type = Some(a.trim().to_string());
@@ -1224,6 +1231,71 @@ fn find_pattern(region: &str, pat: &str) -> Vec<(usize, usize, Vec<(String, Stri
     out
 }
 
+/// local binders of a function body in source order (rule RN)
+fn collect_binders(block: &syn::Block) -> Vec<String> {
+    struct B(Vec<String>);
+    impl<'ast> Visit<'ast> for B {
+        fn visit_pat_ident(&mut self, p: &'ast syn::PatIdent) {
+            self.0.push(p.ident.to_string());
+            visit::visit_pat_ident(self, p);
+        }
+    }
+    let mut b = B(vec![]);
+    b.visit_block(block);
+    b.0
+}
+
+fn rename_tokens(text: &str, map: &[(String, String)]) -> String {
+    let b = text.as_bytes();
+    let is_id = |c: u8| c.is_ascii_alphanumeric() || c == b'_';
+    let mut out = String::with_capacity(text.len());
+    let mut i = 0;
+    while i < b.len() {
+        if is_id(b[i]) && !b[i].is_ascii_digit() && (i == 0 || !is_id(b[i - 1])) {
+            let mut j = i;
+            while j < b.len() && is_id(b[j]) { j += 1; }
+            let tok = &text[i..j];
+            // not a field / method name (`x.left`), not a path segment (`a::left`)
+            let after_dot = i > 0 && (b[i - 1] == b'.' || (i > 1 && b[i - 1] == b':' && b[i - 2] == b':'));
+            match map.iter().find(|(o, _)| o == tok) {
+                Some((_, n)) if !after_dot => out.push_str(n),
+                _ => out.push_str(tok),
+            }
+            i = j;
+        } else {
+            let ch = text[i..].chars().next().unwrap();
+            out.push(ch);
+            i += ch.len_utf8();
+        }
+    }
+    out
+}
+
+fn apply_renames(fd: &FnDir, map: &[(String, String)]) -> FnDir {
+    let mut n = fd.clone();
+    let rc = |v: &mut Vec<Clause>| for c in v.iter_mut() { c.text = rename_tokens(&c.text, map); };
+    rc(&mut n.requires);
+    rc(&mut n.ensures);
+    rc(&mut n.decreases);
+    for (_, l) in n.loops.iter_mut() {
+        rc(&mut l.invariant);
+        rc(&mut l.invariant_except_break);
+        rc(&mut l.ensures);
+        rc(&mut l.decreases);
+    }
+    for a in n.ats.iter_mut() {
+        a.text = rename_tokens(&a.text, map);
+        a.pos = rename_tokens(&a.pos, map);
+    }
+    for sb in n.substs.iter_mut() {
+        if sb.0.starts_with("body") {
+            sb.1 = rename_tokens(&sb.1, map);
+            sb.2 = rename_tokens(&sb.2, map);
+        }
+    }
+    n
+}
+
 fn main() {
     let args: Vec<String> = std::env::args().collect();
     if args.len() != 5 {
@@ -1517,6 +1589,38 @@ fn emit_fn(src: &Src, path: &str, fd: &FnDir, bm: &[(String, String)], unit: &st
         }
     };
 
+    // ---- rule RN: follow a pure renaming of locals
+    let cur_binders = collect_binders(block);
+    if std::env::var("XTRACT_PRINT_BINDERS").is_ok() {
+        eprintln!("BINDERS {}::{} {}", src.rel, path, cur_binders.join(" "));
+    }
+    let mut local_renames: Vec<(String, String)> = vec![];
+    if let Some(old) = &fd.binders {
+        if old.len() == cur_binders.len() {
+            let mut ok = true;
+            for (o, c) in old.iter().zip(cur_binders.iter()) {
+                match local_renames.iter().find(|(a, _)| a == o) {
+                    Some((_, b)) => { if b != c { ok = false; } }
+                    None => local_renames.push((o.clone(), c.clone())),
+                }
+            }
+            // injective, and nothing renamed onto a name that another binder keeps
+            for (i, (_, b)) in local_renames.iter().enumerate() {
+                if local_renames.iter().enumerate().any(|(j, (_, b2))| j != i && b2 == b) { ok = false; }
+            }
+            local_renames.retain(|(a, b)| a != b);
+            // a binder that shadows a parameter of the same name: contract text may mean either, leave it
+            let params: Vec<String> = sig.inputs.iter().filter_map(|a| match a {
+                syn::FnArg::Typed(pt) => match &*pt.pat { syn::Pat::Ident(pi) => Some(pi.ident.to_string()), _ => None },
+                _ => None,
+            }).collect();
+            local_renames.retain(|(a, _)| !params.contains(a));
+            if !ok { local_renames.clear(); }
+        }
+    }
+    let fd_renamed;
+    let fd: &FnDir = if local_renames.is_empty() { fd } else { fd_renamed = apply_renames(fd, &local_renames); &fd_renamed };
+
     let fn_start = match vis {
         Some(syn::Visibility::Inherited) | None => src.range(sig.span()).0,
         Some(v) => src.range(v.span()).0,
@@ -1783,7 +1887,8 @@ fn emit_fn(src: &Src, path: &str, fd: &FnDir, bm: &[(String, String)], unit: &st
     functions.push(json!({"kind": if imported { "imported-contract" } else { "fn" }, "imported_from": fd.imported_from, "anchor": format!("{}::{}", src.rel, path), "file": src.rel, "item_id": k,
         "start": fn_start, "end": fn_end, "line": src.line_of(fn_start), "end_line": src.line_of(fn_end),
         "impl_header": impl_hdr, "text": &src.text[fn_start..fn_end],
-        "loops": loops.len(), "statements": stmts.len(), "lost_hints": lost_hints}));
+        "loops": loops.len(), "statements": stmts.len(), "lost_hints": lost_hints,
+        "local_renames": local_renames.iter().map(|(a, b)| json!({"contract": a, "code": b})).collect::<Vec<_>>()}));
     if imported {
         return;
     }
